@@ -142,6 +142,10 @@ func genSequence(seed uint64, n int) []interface{} {
 			earlier = append(earlier, p)
 			seq = append(seq, p)
 		case 2:
+			if r.intn(4) == 0 { // a byte array at the boundaries of its length forms and chunk size
+				seq = append(seq, mkBytes([]int{15, 16, 1023, 1024, 1025, 4096, 4097, 5120}[r.intn(8)], r))
+				continue
+			}
 			seq = append(seq, topScalar(r))
 		case 3:
 			if len(slices) > 0 && r.bool() { // a slice sent earlier on this stream, again (the same backing array)
